@@ -230,6 +230,7 @@ PROPS["C15"]["verus"]["rows"] = ["Table::read_rows"]
 PROPS["C09"]["probes"] = {"StringPoolBuilder::build_from_data": ["zerorc"], "StringPool::decref": ["dangling"], "ValueRef::remove": ["dangling"]}
 PROPS["C08"]["probes"] = {"StringPool::decref": ["dangling"], "ValueRef::remove": ["dangling"]}
 PROPS["C02"]["probes"] = {"StringPoolBuilder::build_from_data": ["zerorc"]}
+PROPS["C07"]["probes"] = {"Category::validate": ["category"]}
 PROPS["C14"]["probes"] = {"CodePage::encode": ["encode"], "CodePage::decode": ["bom"]}
 PROPS["C18"]["probes"] = {"timestamp_from_system_time": ["time"], "system_time_from_timestamp": ["time"],
                           "duration_to_timestamp_delta": ["time"], "timestamp_delta_to_duration": ["time"]}
